@@ -7,11 +7,11 @@ NOTES = ("Contract-based deductive verification; see DESIGN.md. Exit codes of ./
          "(VIOLATION line), 2 undecided, 3 checker error.")
 CHECKS = [
     {"id": "C11", "level": "proof", "modules": ["contracts.C11_curve"], "bounded": ["bounded.C11_floats"],
-     "technique": "deductive verification: sidecar contracts on the real source, VCs by symbolic execution (pyvc), z3",
+     "technique": "deductive verification: sidecar contracts on the real source, VCs by symbolic execution (pyvc), z3 (over the reals) + bounded IEEE-double grid through the real prediction path",
      "text": "Every claim of the statement (flat between the balance points, exact line / asymptote beyond them, monotone, "
              "Lipschitz-continuous, loads non-negative, exclusive and additive) is a postcondition of DailyModel._predict_submodel "
              "over all admissible coefficient vectors of all seven shapes and ALL real temperatures; the numba kernel full_model is "
-             "verified against its own contract (curve7) and used modularly. Obligations are generated from /repo's source text on every run.",
+             "verified against its own contract (curve7) and used modularly. Obligations are generated from /repo's source text on every run. Bounded (labelled so, bounded/C11_floats.py): the same clauses and the documented formula in IEEE doubles through the real prediction path on random coefficient vectors of every shape (smoothing fractions adding up to 1 and more, joints 1e-9 apart, integer temperature dtype): the proofs are over the reals and cannot see rounding.",
      "note": "floats as reals (A1), numba==CPython on the subset (A2), exp replaced by axiom instances of the real exponential; "
              "admissibility predicate adm(shape) is what C12 proves of fitted models; known finding C11-edge excluded by its witness class",
      "not_covered": ["floating-point rounding of (m - c) + c in the additive identity", "coefficients outside adm(shape) (hand-written parameter files)"],
@@ -21,15 +21,15 @@ CHECKS = [
      "text": "Post-processing of the optimiser's result: for every raw vector inside the box the fit functions build and every "
              "temperature, the real _set_model_key/_refine_model/reduce_model/from_np_arrays chain yields named coefficients that "
              "satisfy the admissibility predicate adm(shape) (order, range, slope signs, smoothing range, type<->fields), and the "
-             "stored coefficients evaluate to the curve the objective scored (curve-preservation lemma).",
+             "stored coefficients evaluate to the curve the objective scored (curve-preservation lemma). The construction of the optimiser's box (_hdd_tidd_cdd_smooth_update_bnds, _c_hdd_tidd_update_bnds) is under contract: ordered rows, non-negative lower bounds for slopes / smoothing, fresh breakpoint and intercept rows.",
      "note": "the optimiser is assumed to return a point inside its box (NLopt/SciPy are outside the verifier's reach); floats as reals; "
              "known finding C12-H excluded by its witness class",
      "not_covered": ["that the optimiser honours its bounds", "base load within the observed usage range beyond the quantile box", "behaviour of the fit on data"],
      },
     {"id": "C16", "level": "proof", "modules": ["contracts.C16_metrics"], "bounded": ["bounded.C16_metrics", "bounded.C16_fitted", "bounded.C16_caltrack"],
-     "technique": "deductive verification: sidecar contracts on the real source, VCs by symbolic execution (pyvc) over abstract aggregates, z3",
+     "technique": "deductive verification: sidecar contracts on the real source, VCs by symbolic execution (pyvc) over abstract aggregates, z3 + bounded differentials (metric classes, fitted models end to end, CalTRACK metrics)",
      "text": "Every computed field of BaselineMetrics / ReportingMetrics equals the textbook formula over abstract aggregates of the "
-             "finite rows (for all n, parameter counts and aggregate values), _safe_divide and both poor-fit gates are verified in iff form.",
+             "finite rows (for all n, parameter counts and aggregate values), _safe_divide and both poor-fit gates are verified in iff form. Bounded (labelled so): the statistics a fitted daily / billing / hourly model reports and stores against the formulas applied to its own predict(baseline) (hourly: non-interpolated hours; re-checked after another model was fitted); the CalTRACK hourly ModelMetrics against textbook formulas.",
      "note": "pandas aggregates (sum, var, quantile, autocorr, corr) are assumed contracts; floats as reals; known finding C16-safe-divide",
      "not_covered": ["numerical accuracy of pandas' var/autocorr/corr", "that X_predict equals what a later predict(baseline) rebuilds (needs a fit)"],
      },
@@ -90,7 +90,7 @@ CHECKS = [
      "text": "Proof (daily/billing): the symbolic per-row expressions of predicted / predicted_unc / heating_load / cooling_load returned by the "
              "real _predict contain no symbol of the row's observed cell, for every split layout; observed only decides whether the row is "
              "predicted at all (C07). Bounded (labelled so): real fitted hourly and CalTRACK-hourly models predict paired reporting sets "
-             "differing only in observed, incl. DST weeks.",
+             "differing only in observed, incl. DST weeks. Proof (data preparation): the daily / billing and CalTRACK hourly data classes blank a zero electricity reading and only that cell; the row's temperature reaches the aggregation untouched. Bounded additions: exact zeros / scaling by zero through the daily class fed with an hourly frame; an hourly model whose baseline has an outage over one (month, weekday) combination.",
      "note": "hourly / CalTRACK prediction paths run through scikit-learn, statsmodels and clustering code outside the verifier's reach: bounded only",
      "not_covered": ["hourly models whose baseline misses (month, weekday) pairs (excluded by the statement's precondition)"],
      },
@@ -99,7 +99,7 @@ CHECKS = [
      "text": "Proof (daily/billing): for one arbitrary input row the real _predict returns that row exactly once, in a frame produced by "
              "sort_index, without writing to the input, with predicted finite exactly when temperature (and usage, when supplied) is finite. "
              "Bounded-exhaustive (labelled so): the real _get_dst_indices/_transform_dst on every zone of the tz database x every offset change "
-             "2000-2037; real hourly predictions return the reporting frame's index, all finite.",
+             "2000-2037; real hourly predictions return the reporting frame's index, all finite. Bounded additions: hourly spans that begin / end on the day of the change; every supplied timestamp has its row; the value predicted for a timestamp is unchanged when the span is extended by three days on either side.",
      "note": "hourly finiteness depends on fitted coefficients and scalers (bounded only); the data class's contiguous index is C17",
      "not_covered": ["hourly predictions finite for every fitted model (bounded sample only)"],
      },
@@ -109,7 +109,7 @@ CHECKS = [
              "flow-sensitive points-to/effect analysis of /repo's AST (engine B) discharges 'nothing reachable from a parameter is mutated', "
              "'the predict path writes no self attribute outside an approved, value-preserving set', 'df/billing_df return a new object on every "
              "path'; symbolic execution (engine A) proves that fit leaves the data object's lists unmodified and un-aliased. History independence "
-             "then follows by induction over calls. The bounded part replays scripted histories on real objects.",
+             "then follows by induction over calls. The bounded part replays scripted histories on real objects. Ownership obligations (flow/C02_owned.py): an attribute that is mutated in place is only ever assigned a fresh object. Bounded addition: a fitted model and a loaded copy compared before and after other models are constructed, loaded and fitted.",
      "note": "may-analysis over the repository's own code; library calls are pure unless in the mutator table; pandas Copy-on-Write semantics assumed; "
              "value preservation of the approved hourly predict-time writes is only exercised by the bounded histories",
      "not_covered": ["mutation inside scikit-learn / pandas objects by library code", "CalTRACK-hourly predict history beyond the flow obligations"],
